@@ -3,7 +3,8 @@ LEVEL = "proof"
 # Props.C01: the property theorems; Lemmas.CharsLink / Lemmas.LexerMask: the link theorems that tie the model to
 # the regenerated tables and constants (audited together so that a changed table shows up as a failed obligation)
 LEAN_MODULES = ["CifModel.Props.C01", "CifModel.Props.C01parse", "CifModel.Props.C01Render", "CifModel.Lemmas.ParserStructure", "CifModel.Lemmas.CharsLink", "CifModel.Lemmas.LexerMask",
-                "CifModel.Lemmas.LexQuiet"]   # C03_quiet_key_valid: built and audited here until C03.py imports it
+                "CifModel.Lemmas.LexQuiet",   # C03_quiet_key_valid: built and audited here until C03.py imports it
+                "CifModel.Props.ReviewC01"]
 REQUIRED = [
     "CifModel.C01_lex_value", "CifModel.C01_lex_value_loop", "CifModel.C01_lex_value_after_ws", "CifModel.C01_nextValue", "CifModel.C01_lex_key",
     "CifModel.C01_lex_name", "CifModel.C01_lex_bracket", "CifModel.C01_lex_keyword",
